@@ -223,6 +223,13 @@ fn main() -> Result<()> {
     color_eyre::install()?;
     let opt = Opt::parse();
 
+    // verification hook: print the parsed options and exit (compiled only with the verif cfg)
+    #[cfg(maidsafe_safe_network_verif)]
+    if std::env::var_os("ANTNODE_VERIF_DUMP_OPTS").is_some() {
+        println!("{opt:#?}");
+        return Ok(());
+    }
+
     if let Some(network_id) = opt.network_id {
         version::set_network_id(network_id);
     }
